@@ -121,7 +121,7 @@ def specBytes (fs : List Field) : List Nat :=
 /-! ## field order (`MatchedOperandSet.generate_bytecode`) -/
 
 inductive CodePos where | prefix | suffix
-deriving Repr, DecidableEq
+deriving Repr, DecidableEq, Inhabited
 
 /-- what one matched operand contributes -/
 structure OpParts where
